@@ -179,9 +179,9 @@ def specs(ctx):
     failing = [('Reservoir Temperature', 'uniform', [40, 70]), ('Reservoir Area', 'uniform', [50.0, 120.0]),
                ('Reservoir Porosity', 'normal', [97, 3])]
     out = [dict(name='contended', W=16, st=mc.make_settings(rnd, 40 if q else 300)),
-           dict(name='serial', W=1, st=mc.make_settings(rnd, 12 if q else 60)),
-           dict(name='failing', W=4, st=mc.make_settings(rnd, 30 if q else 200, inputs=failing, n_outputs=3)),
-           dict(name='geophires', W=3, st=geo_st + f'ITERATIONS, {6 if q else 24}\n', program='GEOPHIRES', base=geo)]
+           dict(name='serial', W=1, st=mc.make_settings(rnd, 8 if q else 60)),
+           dict(name='failing', W=4, st=mc.make_settings(rnd, 24 if q else 200, inputs=failing, n_outputs=3)),
+           dict(name='geophires', W=3, st=geo_st + f'ITERATIONS, {5 if q else 24}\n', program='GEOPHIRES', base=geo)]
     if not q:
         out += [dict(name=f'extra{k}', W=rnd.choice([2, 3, 8, 16]), st=mc.make_settings(rnd, rnd.choice([25, 80]))) for k in range(8)]
         out += [dict(name='geophires2', W=4, st=geo2_st + 'ITERATIONS, 12\n', program='GEOPHIRES', base=geo2)]
